@@ -120,8 +120,10 @@ def run (j : Json) : Except String Json := do
     out := out ++ [("created", .bool created), ("fsafe", .bool (fsafeCls nonFast cls)),
                    ("fplain", .bool (fplainInst cls x)), ("fwf", .bool (fwf O cls x)),
                    ("fastDefects", strs (fastDefects Mp nonFast compact sn cls x))]
+    let firstUse ← optBool j "firstUse" false   -- the instance is the FIRST one of a fresh class, built by a trusted path
     if created then
-      out := out ++ [("fast", resToJson (fastSerialize Mp nonFast jsonEnums sn compact cls x))]
+      out := out ++ [("fast", resToJson (if firstUse then fastSerializeFirst Mp nonFast jsonEnums false cls x
+                                         else fastSerialize Mp nonFast jsonEnums sn compact cls x))]
     if mapperFree then
       out := out ++ [("regular", resToJson (serializeCompact O compact cls x))]
   else if mode == "oracle" then
